@@ -221,6 +221,7 @@ int main(int argc, char **argv)
 	W.hooks.on_sanitizer = on_san;
 	ops[0] = &s_base32_ops; ops[1] = &s_base64_ops; ops[2] = &s_base64u_ops; ops[3] = &s_base128_ops;
 	xp_init("C07", a.tier, 1024, a.budget_s);
+	xp_guard("!C07", NULL, 0);
 	int rj = a.replay ? xp_load_replay(a.replay) : -1;      /* before the calibration: its violations replay too */
 	for (int k = 0; k < 4; k++)
 		if (!ref_calibrate(k, ops[k]->encode)) {
